@@ -508,7 +508,7 @@ theorem absEv_local (hw : WfEngine e) : Memo.Local (absEng e) (absEv x event e) 
 /-- what the concrete error slot records about the abstract error list -/
 def ErrRel (e : Engine) (errs : List Nat) (le : Option (Str × EvalErr)) : Prop :=
   (le.isSome = true ↔ errs ≠ []) ∧
-  ∀ nm k, le = some (nm, k) → ∃ i ∈ errs, ∃ r, e.rules[i]? = some r ∧ r.name = nm
+  ∀ nm k, le = some (nm, k) → ∃ i, errs.getLast? = some i ∧ ∃ r, e.rules[i]? = some r ∧ r.name = nm
 
 theorem depLoop_sim (hw : WfEngine e) : ∀ (l : List Nat), (∀ i ∈ l, i < e.rules.length) →
     ∀ (s : Memo.States) (errs : List Nat) (c : ScanAcc), R e s c.states → ErrRel e errs c.lastErr →
